@@ -168,6 +168,7 @@ func scAttr() Scenario {
 		aProvider("CreateProvider", "P2", ab, "aaa=1,bbb=1"),
 		aSign("U1", "P1", a1, "aaa=1"), aSign("U1", "P1", attrs("bbb", "1"), "bbb=1"), aSign("U1", "P1", attrs("ccc", "1"), "ccc=1"), aSign("U1", "P1", a2, "aaa=2"), aSign("U2", "P1", ab, "aaa=1,bbb=1"),
 		aUnsign("U1", "P1", nil, "all"), aUnsign("U1", "P1", []string{"aaa"}, "aaa"), aUnsign("U2", "P1", nil, "all"),
+		aUnsign("U1", "P1", []string{"bbb", "aaa"}, "bbb+aaa"), aUnsign("U2", "P1", []string{"bbb", "aaa"}, "bbb+aaa"),
 		aCreateDeploymentReq("T1", 1, "aaa=1", reqOf(a1, nil, nil)),
 		aCreateDeploymentReq("T1", 2, "aaa=1,bbb=1;all=U1", reqOf(ab, []string{"U1"}, nil)),
 		aCreateDeploymentReq("T1", 3, "aaa=1;any=U1,U2", reqOf(a1, nil, []string{"U1", "U2"})),
@@ -209,6 +210,27 @@ func scAttrLeased() Scenario {
 		aCreateBid(b1, 2, 5), aCreateBid(b2, 2, 5),
 		aBidOp("CreateLease", b1), aBidOp("CreateLease", b2),
 	}
+	return sc
+}
+
+// S-attr-2groups: P1 holds leases on BOTH groups of one deployment; the groups' orders have the same oseq and
+// different requirements (g1: aaa=1, g2: aaa=1,bbb=1).
+func scAttr2Groups() Scenario {
+	sc := scAttr()
+	sc.Name = "S-attr-2groups"
+	ab := attrs("aaa", "1", "bbb", "1")
+	b1, b2 := bidRef{"T1", 4, 1, 1, "P1"}, bidRef{"T1", 4, 2, 1, "P1"}
+	dep := Action{Name: "CreateDeployment(T1,4,g1 req=aaa=1,g2 req=aaa=1+bbb=1)", Kind: "CreateDeployment", Signer: "T1", Tag: tag("owner", "T1", "dseq", "4"),
+		Msg: func(c *Cast) sdk.Msg {
+			return &dtypes.MsgCreateDeployment{ID: dtypes.DeploymentID{Owner: c.S("T1"), DSeq: 4},
+				Groups: []dtypes.GroupSpec{groupSpec("g1", 3, types.PlacementRequirements{Attributes: attrs("aaa", "1")}), groupSpec("g2", 3, types.PlacementRequirements{Attributes: ab})},
+				Version: version("v1"), Deposit: coin(10)}
+		}}
+	sc.Preamble = []Action{
+		aProvider("CreateProvider", "P1", ab, "aaa=1,bbb=1"), dep,
+		aCreateBid(b1, 2, 5), aCreateBid(b2, 2, 5), aBidOp("CreateLease", b1), aBidOp("CreateLease", b2),
+	}
+	sc.Alphabet = append(sc.Alphabet, aBidOp("CloseLease", b1), aBidOp("CloseLease", b2))
 	return sc
 }
 
@@ -267,6 +289,37 @@ func (chkC08) CheckTrans(t *TransCtx) (out []Viol) {
 		out = append(out, Viol{"C08." + inv, sig, t.Act.Name + ": " + shortKey(w, fmt.Sprintf(f, a...))})
 	}
 	switch t.Act.Kind {
+	case "SignProviderAttributes", "DeleteProviderAttributes":
+		// reference model of what an auditor attests: signing merges (new values win), deleting removes the named keys
+		// (all keys when none are named); the stored record must be exactly that
+		if !t.Res.OK {
+			return nil
+		}
+		k := w.Cast.S(t.Act.Tag["provider"]) + "/" + w.Cast.S(t.Act.Tag["auditor"])
+		model := map[string]string{}
+		for _, a := range t.Pre.Audits[k].Attributes {
+			model[a.Key] = a.Value
+		}
+		if m, ok := t.Act.Msg(w.Cast).(*atypes.MsgSignProviderAttributes); ok {
+			for _, a := range m.Attributes {
+				model[a.Key] = a.Value
+			}
+		}
+		if m, ok := t.Act.Msg(w.Cast).(*atypes.MsgDeleteProviderAttributes); ok {
+			if len(m.Keys) == 0 {
+				model = map[string]string{}
+			}
+			for _, key := range m.Keys {
+				delete(model, key)
+			}
+		}
+		got := map[string]string{}
+		for _, a := range t.Post.Audits[k].Attributes {
+			got[a.Key] = a.Value
+		}
+		if fmt.Sprint(got) != fmt.Sprint(model) {
+			add("attestation-model", "attestation-ne-model:"+t.Act.Kind, "the attestation of %s by %s is %v after this request, the requests so far amount to %v", t.Act.Tag["provider"], t.Act.Tag["auditor"], got, model)
+		}
 	case "CreateBid":
 		if !t.Res.OK {
 			return nil
